@@ -151,6 +151,16 @@ Fixpoint run (st : state) (ops : list op) : state * list out :=
 Definition compare_symbol (a b : Z) : Z :=
   let d := a - b in if d >? 0 then 1 else if d <? 0 then -1 else 0.
 
+(* comparisons.go: compareArray (and comparePair on proper lists) restricted to sequences of symbols:
+   element by element, the first non-zero result decides; then the sign of the length difference *)
+Fixpoint compare_symbols (a b : list Z) : Z :=
+  match a, b with
+  | [], [] => 0
+  | [], _ :: _ => -1
+  | _ :: _, [] => 1
+  | x :: a', y :: b' => let c := compare_symbol x y in if c =? 0 then compare_symbols a' b' else c
+  end.
+
 (* hashutils.go: hashHelper on a symbol is its number *)
 Definition hash_symbol (a : Z) : Z := a.
 
